@@ -491,7 +491,9 @@ def poisson_case(ctx, pid, par, perm_internal, muts, G_or_grid, Ne, mu, eps, seq
         return True
     parm = {c: (p if p >= 0 else None) for c, p in enumerate(par_new)}
     internal = set(range(N)) - set(range(NS))
-    edge_muts = {int(e.child): int(m) for e, m in zip(ts.edges(), discrete.Likelihoods.get_mut_edges(ts))}
+    # mutation count per edge from the *instance* (mutations placed above the root lie on no edge and must
+    # not be counted anywhere); not from the code under test (second seed C10-b)
+    edge_muts = {int(c): int(muts_new[c]) for c in range(N) if par_new[c] >= 0}
 
     def prior(u, i):
         return float(prior_rows[u][i])
